@@ -732,7 +732,7 @@ def _live_engine(ps, state, **kw):
         dbapi_conn.create_function("tg", 2, tg)
         dbapi_conn.create_function("tgl", 2, tgl)
         cur = sqlite3.Cursor(dbapi_conn)
-        cur.execute("CREATE TABLE t (id INTEGER PRIMARY KEY, a INTEGER, b VARCHAR(50), c INTEGER)")
+        cur.execute(state.get("ddl") or "CREATE TABLE t (id INTEGER PRIMARY KEY, a INTEGER, b VARCHAR(50), c INTEGER)")
         if state.get("populate", True):
             sqlite3.Cursor.executemany(cur, "INSERT INTO t (a, b, c) VALUES (?, ?, ?)", table_rows())
         cur.close()
@@ -741,11 +741,12 @@ def _live_engine(ps, state, **kw):
     return eng
 
 
-def _raw_state(conn):
+def _raw_state(conn, names=None):
     dbc = conn.connection.driver_connection
     cur = sqlite3.Cursor(dbc)
+    cols = ", ".join(_q(names[c]) for c in COLS) if names else "a, b, c"
     try:
-        return sqlite3.Cursor.execute(cur, "SELECT id, a, b, c FROM t ORDER BY id").fetchall()
+        return sqlite3.Cursor.execute(cur, f"SELECT id, {cols} FROM t ORDER BY id").fetchall()
     finally:
         cur.close()
 
@@ -811,6 +812,36 @@ def check_live(case, ctx):
 
 # ---------------------------------------------------------------- executemany / insertmanyvalues
 COLS = ["a", "b", "c"]
+# real column names per logical column (index 0 = plain); the others need bind-name escaping and stay collision-free after it
+COLNAMES = {
+    "a": ["a", "a b", "a.x", "a[0]"],
+    "b": ["b", "b(y)", "b%p", "b:q"],
+    "c": ["c", "c d.e", "c[1](2)", "c %:z"],
+}
+_MANY_TABLES = {}
+
+
+def _colnames(prog):
+    cn = prog.get("cn") or [0, 0, 0]
+    return {c: COLNAMES[c][cn[i] % len(COLNAMES[c])] for i, c in enumerate(COLS)}
+
+
+def _many_table(autoinc, names):
+    import sqlalchemy as sa
+
+    key = (autoinc, tuple(names[c] for c in COLS))
+    if key not in _MANY_TABLES:
+        _MANY_TABLES[key] = sa.Table("t", sa.MetaData(), sa.Column("id", sa.Integer, primary_key=True, autoincrement=autoinc), sa.Column(names["a"], sa.Integer),
+                                     sa.Column(names["b"], sa.String(50)), sa.Column(names["c"], sa.Integer))
+    return _MANY_TABLES[key]
+
+
+def _q(name):
+    return '"' + name.replace('"', '""') + '"'
+
+
+def _many_ddl(names):
+    return f"CREATE TABLE t (id INTEGER PRIMARY KEY, {_q(names['a'])} INTEGER, {_q(names['b'])} VARCHAR(50), {_q(names['c'])} INTEGER)"
 
 
 def rowval(c, r, s):
@@ -829,9 +860,12 @@ def build_many(prog, s, caps, autoinc=True, ctx=None):
     import sqlalchemy as sa
     from sqlalchemy import Integer, String, bindparam, func, insert, literal_column
 
-    t = _table(autoinc)
+    cn = _colnames(prog)
+    t = _many_table(autoinc, cn)
     out = Built()
     out.table = t
+    out.cn = cn
+    out.col_of_name = {v: k for k, v in cn.items()}
     modes = {c: prog["cols"][i] % 4 for i, c in enumerate(COLS)}
     if all(m == 0 for m in modes.values()):
         modes["a"] = 1
@@ -850,11 +884,11 @@ def build_many(prog, s, caps, autoinc=True, ctx=None):
         if m == 1:
             continue  # plain: comes from the parameter dictionaries
         if m == 2:
-            vd[c] = func.tg(literal_column(str(10 + i)), bindparam(c, type_=ty), type_=ty)
+            vd[cn[c]] = func.tg(literal_column(str(10 + i)), bindparam(cn[c], type_=ty), type_=ty)
             out.features.add("tagged-values-bind")
         else:
             cname = f"{NAMES[names[i] % len(NAMES)]}k{50 + i}"
-            if cname.startswith(c) and not prog.get("pinned"):
+            if T_escape(cname).startswith(T_escape(cn[c])) and not prog.get("pinned"):
                 # known finding C04/imv-named-prefix-replace: a second bind in the column's VALUES expression whose
                 # name extends the column's own parameter name is corrupted by the non-positional imv rewrite
                 if ctx is not None and s == 0:
@@ -864,22 +898,25 @@ def build_many(prog, s, caps, autoinc=True, ctx=None):
             if any(ch in cname for ch in "%():.[] "):
                 out.features.add("escaped-name")
             k = func.tg(literal_column(str(50 + i)), bindparam(cname, constval(c, s), type_=ty), type_=ty)
-            vd[c] = bindparam(c, type_=ty).concat(k) if c == "b" else bindparam(c, type_=ty) + k
+            vd[cn[c]] = bindparam(cn[c], type_=ty).concat(k) if c == "b" else bindparam(cn[c], type_=ty) + k
             out.features.add("const-bind-in-values")
     rows = []
     for r in range(n):
-        rows.append({c: rowval(c, r, s) for c in COLS if modes[c] != 0})
+        rows.append({cn[c]: rowval(c, r, s) for c in COLS if modes[c] != 0})
     out.rows = rows
+    out.escaped_cols = sorted(c for c in COLS if modes[c] != 0 and cn[c] != T_escape(cn[c]))
+    if out.escaped_cols:
+        out.features.add("escaped-column-name")
     if multi:
         stmt = insert(t).values(rows)
         out.params = None
         out.features.add("multi-values")
     else:
-        stmt = insert(t).values(**vd) if vd else insert(t)
+        stmt = insert(t).values(vd) if vd else insert(t)
         out.params = rows
     out.ret = False
     if prog.get("ret") and caps.get("insert_returning"):
-        rc = [t.c.id, t.c.a]
+        rc = [t.c.id, t.c[cn["a"]], t.c[cn["b"]], t.c[cn["c"]]]
         if prog.get("retbind"):
             rname = f"{NAMES[prog.get('retname', 0) % len(NAMES)]}k90"
             rc.append(func.tg(literal_column("90"), bindparam(rname, f"{'AB'[s]}RET", type_=String()), type_=String()).label("rb"))
@@ -951,7 +988,10 @@ def check_many_statement(R, b, s, row0, nrows_in_stmt, ps, where, statement):
         if len(parts) < len(cols):
             raise Violation(f"C04/many-shape/{ps}", f"{where}: VALUES group has {len(parts)} elements for {len(cols)} columns", observed=statement)
         r = row0 + ngroups
-        for c, part in zip(cols, parts):
+        for cname_, part in zip(cols, parts):
+            c = b.col_of_name.get(cname_)
+            if c is None:
+                raise Violation(f"C04/many-shape/{ps}", f"{where}: unknown column {cname_!r} in the INSERT column list", observed=statement)
             multi = b.params is None
             m = 1 if multi else b.modes[c]
             vals = []
@@ -1002,11 +1042,34 @@ def _run_many_recorded(url, pso, prog, flavor, ctx=None):
         eng.dispose()
 
 
+IMV_CLASS = "imv-batch>1+escaped-column+named/pyformat"
+
+
+def _values_groups(statement, ps):
+    """number of top-level VALUES groups of an INSERT as sent to the cursor"""
+    try:
+        toks = T.lex(statement, "sqlite", ps)
+    except T.LexError:
+        return 0
+    v = 0
+    while v < len(toks) and not (toks[v][0] == "word" and toks[v][1].upper() == "VALUES"):
+        v += 1
+    g, n = v + 1, 0
+    while g < len(toks) and toks[g] == ("op", "("):
+        g = _group(toks, g) + 1
+        n += 1
+        if g < len(toks) and toks[g] == ("op", ","):
+            g += 1
+        else:
+            break
+    return n
+
+
 def _analyze_many(statement, p, ps, flavor, percent, many, b, where):
     try:
         return analyze(statement, p, ps, flavor, percent)
     except Violation as v:
-        if v.signature.startswith("C04/resolve/missing-param") and not many and ps in ("named", "pyformat") and any(T_escape(n).startswith(c) for c, n in b.const_names.items()):
+        if v.signature.startswith("C04/resolve/missing-param") and not many and ps in ("named", "pyformat") and any(T_escape(n).startswith(T_escape(b.cn[c])) for c, n in b.const_names.items()):
             raise Violation("C04/imv-named-prefix-replace", f"{where}: insertmanyvalues rewrote a bind whose name extends the column parameter name: {v.message}", observed=v.observed)
         raise
 
@@ -1038,6 +1101,8 @@ def check_many(case, ctx):
                         if ng > 1:
                             feats.add("batch>1")
                             nontriv = True
+                            if b.escaped_cols and b.params is not None and ps in ("named", "pyformat") and not many:
+                                feats.add(IMV_CLASS)
                         delivered += ng
                         # reference comparison (same statement / batch index of the named run)
                         if ps != "named" and refs[url] is not None:
@@ -1066,8 +1131,12 @@ def check_many_live(case, ctx):
     nontriv = prog["rows"] > 1
     try:
         for ps in PARAMSTYLES:
-            state = {"tags": {}, "bad": [], "populate": False, "free": {10, 11, 12}}
+            state = {"tags": {}, "bad": [], "populate": False, "free": {10, 11, 12}, "ddl": _many_ddl(_colnames(prog))}
+            captured = []
             eng = _live_engine(ps, state, insertmanyvalues_page_size=prog["page"])
+            from sqlalchemy import event as _event
+
+            _event.listen(eng, "before_cursor_execute", lambda conn_, cur_, st_, p_, ctx_, many_, _c=captured: _c.append(st_))
             try:
                 outs = []
                 with eng.connect() as conn:
@@ -1081,10 +1150,20 @@ def check_many_live(case, ctx):
                         state["tags"] = tags
                         r = conn.execute(b.stmt) if b.params is None else conn.execute(b.stmt, b.params)
                         rows = [tuple(x) for x in r.all()] if r.returns_rows else None
+                        if rows is not None:
+                            # RETURNING id, a, b, c [, rb]: the returned column values must be the rows given (first principles)
+                            got_ret = sorted((x[1:4] for x in rows), key=repr)
+                            exp_ret = sorted(b.expected, key=repr)
+                            if got_ret != exp_ret:
+                                raise Violation(f"C04/many-live-returning/{ps}", f"sqlite3 via {ps}, set {'AB'[s]}: RETURNING gave {got_ret!r}, the rows inserted are {exp_ret!r}",
+                                                observed=repr(got_ret), expected=repr(exp_ret))
                         if rows is not None and not prog.get("sorted"):
                             rows = sorted(rows, key=repr)
-                        st_rows = _raw_state(conn)
+                        st_rows = _raw_state(conn, b.cn)
                         expected_state += list(b.expected)
+                        if b.escaped_cols and b.params is not None and ps in ("named", "pyformat") and any(_values_groups(st_, ps) > 1 for st_ in captured):
+                            feats.add(IMV_CLASS)
+                        del captured[:]
                         got = [x[1:] for x in st_rows]
                         if got != expected_state:
                             raise Violation(f"C04/many-live-state/{ps}", f"sqlite3 via {ps}, set {'AB'[s]}: table holds {got!r}, expected {expected_state!r}", observed=repr(got), expected=repr(expected_state))
@@ -1198,6 +1277,7 @@ def _many_programs(draw):
         "sorted": draw(st.integers(0, 3)) == 0,
         "multi": draw(st.integers(0, 5)) == 0,
         "names": draw(st.lists(st.integers(0, len(NAMES) - 1), min_size=3, max_size=3)),
+        "cn": draw(st.lists(st.integers(0, 3), min_size=3, max_size=3)),
     }
 
 
